@@ -46,8 +46,8 @@ class _Scn(object):
 
 OPT = modopt.LOUVAIN + modopt.FINETUNE + ('community_louvain', 'community_louvain', 'modularity_probtune_und_sign')
 SCENARIOS = [
-    _Scn('c02.opt', OPT, {'quick': 40000, 'thorough': 3000000}),
-    _Scn('c02.zero', modopt.ZERO, {'quick': 2000, 'thorough': 50000}),
+    _Scn('c02.opt', OPT, {'quick': 80000, 'thorough': 3000000}),
+    _Scn('c02.zero', modopt.ZERO, {'quick': 4000, 'thorough': 50000}),
 ]
 RULE = ('one run = one call (plus, for routines that take a start, an optional feed-back call) of a community-detection routine on a generated '
         'planted-partition / random network (n 4..12/16, symmetric / directed / signed as required, a minority with self-weights, gamma in '
